@@ -644,7 +644,7 @@ class Quaternion(SMUserList):
 
         :seealso: :func:`spatialmath.base.quaternions.qpow`
         """
-        return self.__class__([base.qpow(q._A, n) for q in self])
+        return self.__class__([base.qpow(q._A, n) for q in self], check=False)
 
     def __ipow__(self, n):
         """
